@@ -33,3 +33,6 @@ func vPar(f, g func())
 func vNoBlock(on bool)
 func vFmtInt(k int, s string) uint64
 func vTokOperand(k int) uint64
+func vTokMark() int
+func vStrTokCount(s string, mark int) int
+func vStrTokIs(s string, mark, i, kind int, val uint64) bool
